@@ -268,6 +268,15 @@ def lean_gate(chk, prop):
         ok, out = lean_build(targets=("StirVerif.%s.Props" % prop, "Driver.%s" % prop))
     else:
         ok, out = lean_build()
+        if not ok:
+            # the library as a whole does not build: if this property's own modules and driver do, the failure belongs to
+            # another property's files (reported by that property's check); go on with the driver run by the interpreter
+            ok2, out2 = lean_build(targets=("StirVerif.%s.Props" % prop, "Driver.%s" % prop))
+            if ok2:
+                os.environ["VERIF_DEV"] = "1"
+                chk.coverage["lean_build_note"] = ("`lake build StirVerif stirdriver` fails in a module this property does not import; "
+                                                   "this property's modules build, its driver was run interpreted")
+                ok, out = ok2, out2
     if not ok:
         errs = [l for l in out.splitlines() if l.startswith("error") or "✖" in l or ": error" in l]
         first = errs[0][:160] if errs else ""
